@@ -141,6 +141,15 @@ HOSTS = [
     ("xn--0.example", "xn--0.example", "xn--0.example"),
     ("bücher.xn--0.example", "xn--bcher-kva.xn--0.example", "bücher.xn--0.example"),
     ("xn--n3h.xn--bcher-kva.example", "xn--n3h.xn--bcher-kva.example", "☃.bücher.example"),
+    # the IDN label in every position: middle, last, several, given in either form
+    ("www.bücher.de", "www.xn--bcher-kva.de", "www.bücher.de"),
+    ("www.xn--bcher-kva.de", "www.xn--bcher-kva.de", "www.bücher.de"),
+    ("a.b.münchen", "a.b.xn--mnchen-3ya", "a.b.münchen"),
+    ("a.b.xn--mnchen-3ya", "a.b.xn--mnchen-3ya", "a.b.münchen"),
+    ("bücher.www.xn--n3h.net", "xn--bcher-kva.www.xn--n3h.net", "bücher.www.☃.net"),
+    # hosts that end in the digits of a default port
+    ("10.0.0.80", "10.0.0.80", "10.0.0.80"),
+    ("node443", "node443", "node443"),
 ]
 USERS = ["", "u@", "u:p@", "ü:p%40x@", "u%3Av:p%2Fq@", "%zz:é@"]
 PORTS = ["", ":80", ":8080", ":443"]
@@ -254,8 +263,11 @@ def check_iri(x: str, row):
     for comp in ("scheme", "port", "path", "query", "fragment", "user", "password", "has_netloc"):
         if m0[comp] != mx[comp]:
             fails.append((f"iri:meaning-changed:{comp}:iri-direct", (comp, mx[comp], m0[comp])))
-    if row is not None and m0["host"] != row[2]:
-        fails.append(("iri:host:iri-direct", (row, m0["host"])))
+    if row is not None:
+        # applied to a mixed host only the meaning is demanded: label by label the ASCII or the Unicode form
+        la, lu, lg = row[1].split("."), row[2].split("."), (m0["host"] or "").split(".")
+        if len(lg) != len(la) or any(g not in (a, u_) for g, a, u_ in zip(lg, la, lu)):
+            fails.append(("iri:host:iri-direct", (row, m0["host"])))
     if row is not None:
         if mu["host"] != row[1] or mu2["host"] != row[1]:
             fails.append(("iri:host:uri", (row, mu["host"], mu2["host"])))
@@ -283,6 +295,10 @@ BASES = [
     ("https://example.com:80/", "https", ("example.com:80", "example.com:80"), ""),
     ("http://example.com:443/r", "http", ("example.com:443", "example.com:443"), "/r"),
     ("http://localhost/r%2541/%25zz", "http", ("localhost", "localhost"), "/r%41/%zz"),
+    ("http://www.bücher.de/", "http", ("www.xn--bcher-kva.de", "www.bücher.de"), ""),
+    ("http://10.0.0.80:80/", "http", ("10.0.0.80", "10.0.0.80"), ""),
+    ("https://172.16.4.43:443/x", "https", ("172.16.4.43", "172.16.4.43"), "/x"),
+    ("http://node80:8080/", "http", ("node80:8080", "node80:8080"), ""),
 ]
 
 
@@ -558,10 +574,12 @@ def check_env(path: str, query, b: int):
 # ------------------------------------------------------------------ host from a raw environ
 
 H_SCHEMES = ["http", "https", "ws", "wss"]
-H_HEADERS = [None, "example.com", "example.com:80", "example.com:443", "example.com:8080", "[::1]", "[::1]:80",
-             "[::1]:443", "[::1]:8443", "xn--bcher-kva.example:80", "EXAMPLE.com"]
-H_SERVERS = ["srv.example", "::1", "[::1]", "127.0.0.1"]
-H_PORTS = ["80", "443", "8080"]
+H_NAMES = ["example.com", "EXAMPLE.com", "10.0.0.80", "172.16.4.43", "192.168.0.0", "node80", "host8", "h443",
+           "srv4", "n3", "[::1]", "[::80]", "[2001:db8::443]", "xn--bcher-kva.example", "www.xn--bcher-kva.de"]
+H_HPORTS = [None, "80", "443", "8080", "8", "0", "8443", "4430"]
+H_HEADERS = [None] + [n if p is None else f"{n}:{p}" for n in H_NAMES for p in H_HPORTS]
+H_SERVERS = ["srv.example", "::1", "[::1]", "127.0.0.1", "10.0.0.80", "node443"]
+H_PORTS = ["80", "443", "8080", "8"]
 
 
 def host_cases():
@@ -600,7 +618,7 @@ def check_host(scheme, header, server, port):
     for k in ("host_url", "wsgi"):
         try:
             m = urlsplit(got[k])
-            ok = (m.scheme == scheme and m.port == wp.port and m.path == "/"
+            ok = (m.scheme == scheme and (m.port or None) == (wp.port or None) and m.path == "/"
                   and (m.hostname or "").encode("idna") == (wp.hostname or "").encode("idna"))
         except Exception:  # noqa: BLE001
             ok = False
